@@ -29,6 +29,7 @@ func runC14(c *Ctx) {
 	c.rule("O1", "retry.Do is always bounded (Attempts) and context-bound (Context from a context parameter); RetryIf also passes RetryIf(cond) and LastErrorOnly(true), bounds attempts by RetryMax, runs fn once when disabled and converts context errors", 5)
 	c.rule("O12", "the function RetryIf hands to retry.Do returns the operation's own error unchanged: the caller's retry condition is asked about the error the attempt produced", 1)
 	c.contextConverterGoesByIdentity("O13", "RetryIf returns what this function makes of the last error: an attempt that failed with an error without a description (errors.New(\"\")) would make RetryIf / RetryOnError return nil although no attempt succeeded")
+	c.rule("O14", "the options RetryIf hands to retry.Do are built by that call from the policy it was given: none comes out of package-level state (a cache of options per policy)", 1)
 	c.rule("O6", "every attempt tests the context before it calls the operation (retry-go only looks at the context while it waits between attempts)", 1)
 	c.rule("O7", "a value of a header is only taken from the list the header map holds where that list was found non-empty (or through Header.Get)", 1)
 	c.rule("O8", "the Retry-After header is looked at only on paths where the status code was found equal to 429 or to 503 (equality tests only, both codes present): an ordering test would let other statuses through", 1)
@@ -65,7 +66,8 @@ func (c *Ctx) c14RetryDo() {
 				}
 				c.FuncsSeen[fname(outermost(f))] = true
 				opts := map[string]*ssa.Call{}
-				for _, e := range variadicElems(cl.Call.Args[1]) {
+				elems, _ := c14Options(c, cl.Call.Args[1], 0)
+				for _, e := range elems {
 					if oc, ok := stripConv(e).(*ssa.Call); ok {
 						opts[strings.TrimPrefix(calleeFull(&oc.Call), retryGo)] = oc
 					}
@@ -112,11 +114,18 @@ func (c *Ctx) c14RetryDo() {
 		return
 	}
 	opts := map[string]*ssa.Call{}
-	for _, e := range variadicElems(do.Call.Args[1]) {
+	optElems, optState := c14Options(c, do.Call.Args[1], 0)
+	for _, e := range optElems {
 		if oc, ok := stripConv(e).(*ssa.Call); ok {
 			opts[strings.TrimPrefix(calleeFull(&oc.Call), retryGo)] = oc
 		}
 	}
+	// O14: "attempted at most the configured number of times": configured when the call is made. The options handed to retry.Do
+	// are built for this call from the policy it was given: none is taken out of package-level state (a memo of 'the options
+	// of this policy' keyed by the policy's address keeps the attempt bound of the first call for ever — the fields of a
+	// policy are plain, mutable, exported fields).
+	c.check(optState == "", "O14", fname(f)+"/options-built-for-this-call", c.ipos(do), "the options are built by this call",
+		"options handed to retry.Do are taken out of package-level state ("+optState+"): a policy whose RetryMax is lowered after a first call — the same object, as long-lived policies are — is still retried the first call's number of times, with the first call's waits: the operation is attempted more often than the configuration says")
 	good, why := true, ""
 	if o, ok := opts["RetryIf"]; !ok || !(paramIndex(f, resolveValue(o.Call.Args[0])) >= 0 || c14ConditionLiteral(f, o.Call.Args[0])) {
 		good, why = false, "the caller's retry condition is not handed to retry.RetryIf (as it is, or and-ed with 'the context is not done'): non-retriable errors are retried"
@@ -1342,4 +1351,70 @@ func c14IsMaxQuotient(v ssa.Value) bool {
 	}
 	k, isC := constBig(bo.X)
 	return isC && k.Cmp(new(big.Int).SetUint64(1<<63-1)) == 0
+}
+
+// c14Options: the options a []retry.Option value is made of, through append, helpers of the package that return option lists,
+// and — noted in fromState — package-level state (sync.Map / map / variable loads).
+func c14Options(c *Ctx, v ssa.Value, depth int) (elems []ssa.Value, fromState string) {
+	if depth > 5 || v == nil {
+		return
+	}
+	merge := func(e []ssa.Value, st string) {
+		elems = append(elems, e...)
+		if st != "" {
+			fromState = st
+		}
+	}
+	if sl, ok := v.(*ssa.Slice); ok {
+		if e := variadicElems(sl); len(e) > 0 {
+			return e, ""
+		}
+	}
+	for _, l := range sources(v, deriveOpts{}) {
+		switch x := l.(type) {
+		case *ssa.Slice:
+			if e := variadicElems(x); len(e) > 0 {
+				merge(e, "")
+			} else {
+				merge(c14Options(c, x.X, depth+1))
+			}
+		case *ssa.Call:
+			n := calleeFull(&x.Call)
+			switch {
+			case n == "builtin.append":
+				for _, a := range x.Call.Args {
+					merge(c14Options(c, a, depth+1))
+				}
+			case strings.HasPrefix(n, "(*sync.Map)."):
+				fromState = c.ipos(x) + " " + short(n)
+				for _, a := range x.Call.Args[1:] {
+					if mi, ok := a.(*ssa.MakeInterface); ok {
+						merge(c14Options(c, mi.X, depth+1))
+					}
+				}
+				fromState = c.ipos(x) + " " + short(n)
+			default:
+				if g := staticCallee(&x.Call); g != nil && inModule(g) && g.Blocks != nil {
+					allInstrs(g, func(in ssa.Instruction) {
+						if r, ok := in.(*ssa.Return); ok && len(r.Results) > 0 {
+							merge(c14Options(c, r.Results[0], depth+1))
+						}
+					})
+				}
+			}
+		case *ssa.TypeAssert:
+			merge(c14Options(c, x.X, depth+1))
+		case *ssa.Extract:
+			merge(c14Options(c, x.Tuple, depth+1))
+		case *ssa.MakeInterface:
+			merge(c14Options(c, x.X, depth+1))
+		case *ssa.UnOp:
+			if g, ok := x.X.(*ssa.Global); ok {
+				fromState = c.ipos(x) + " " + g.Name()
+			}
+		case *ssa.Lookup:
+			fromState = c.ipos(x) + " (map lookup)"
+		}
+	}
+	return
 }
